@@ -437,6 +437,18 @@ def call(ex, node, name, st):
         x = AI(1)
         t = ex.to_seq(seq)
         return I(bisect(ex, st, t, x, right=not name.endswith("left"), line=node.lineno))
+    if name == "np.searchsorted":
+        # np.searchsorted(a, v, side=...) on a 1-D sorted array and a scalar: bisect_left / bisect_right
+        side = "left"
+        for kw in node.keywords:
+            if kw.arg == "side" and isinstance(kw.value, ast.Constant) and kw.value.value in ("left", "right"):
+                side = kw.value.value
+            else:
+                raise E.Unsupported(f"np.searchsorted keyword {kw.arg} line {node.lineno}")
+        if nargs != 2:
+            raise E.Unsupported("np.searchsorted arity")
+        t = ex.to_seq(A(0))
+        return I(bisect(ex, st, t, AI(1), right=(side == "right"), line=node.lineno))
     if name == "dict.fromkeys":
         keys = A(0)
         v = A(1)
@@ -536,6 +548,12 @@ def bisect(ex, st, t, x, right, line):
     """bisect on a non-decreasing sequence: the sortedness precondition is a
     proof obligation; the result is characterised by its two neighbours and
     the global facts."""
+    if "ite" in t.sexpr():
+        # keep `ite` (from normalised slice bounds) out of quantifier patterns: name the sequence
+        ex.nfresh += 1
+        alias = z3.Const(f"bisect_seq!{ex.nfresh}", S.SeqSort)
+        st.pc.append(alias == t)
+        t = alias
     n = S.f_len(t)
     j, k = z3.Ints("j!bs k!bs")
     sorted_ = z3.ForAll([j, k], z3.Implies(z3.And(0 <= j, j <= k, k < n), S.f_at(t, j) <= S.f_at(t, k)),
